@@ -148,7 +148,7 @@ Definition mnt (fx : bool) (f p : var) : list prim :=
   when fx [New f 2 [f]] ++ [Write f 3 [p]; New f 4 [f]; Write f 3 [p]; Alias f f].
 
 (* Field.post_field: asarray/reshape view; process -> apply_mean_norm_trend; when saving unprocessed values
-   a COPY is stored and returned (since /repo 05af9f6; the pinned tree stored the view itself) *)
+   a COPY is stored and returned (since /repo 73ede17; the pinned tree stored the view itself) *)
 Definition post_field (fx : bool) (f : var) (name : option attr) (process : bool) : list prim :=
   [Alias f f] ++ when process (mnt fx f 10)
   ++ match name with Some a => when (fx && negb process) [New f 2 [f]] ++ [Store a f] | None => [] end.
